@@ -1086,7 +1086,11 @@ func (e *Exec) runAtClause(st *State, fc *FuncContract, c *Clause, i int, instr 
 		// proves itself (those tagged P, and untagged helper assertions):
 		// otherwise a failing assertion of another property would mask
 		// P's own assertions further down the same path.
-		if p := e.cs.AssumeProp; p == "" || len(c.Props) == 0 || contains(c.Props, p) {
+		// An assertion that reads a ghost variable no update has reached on
+		// this path (its anchor may be gone on a changed tree) is checked but
+		// not used as a lemma: assuming it could make the rest of the path
+		// infeasible and so hide the assertions that follow.
+		if p := e.cs.AssumeProp; (p == "" || len(c.Props) == 0 || contains(c.Props, p)) && !e.readsUnsetGhost(st, fc, c) {
 			st.assume(g)
 		}
 	case "assume":
@@ -1112,6 +1116,7 @@ func (e *Exec) runAtClause(st *State, fc *FuncContract, c *Clause, i int, instr 
 			v.Typ = cur.Typ
 		}
 		st.ghost[c.Ghost] = v
+		st.ghost["$set:"+c.Ghost] = Val{T: []string{"true"}}
 	}
 }
 
@@ -1123,3 +1128,48 @@ func (e *Exec) entryParams() map[string]Val {
 }
 
 var _ = token.NoPos
+
+// readsUnsetGhost: the clause mentions a ghost variable of the contract that
+// has an anchored update somewhere in the contract but has not been updated
+// on this path yet.
+func (e *Exec) readsUnsetGhost(st *State, fc *FuncContract, c *Clause) bool {
+	if fc == nil {
+		return false
+	}
+	for _, g := range fc.Ghosts {
+		if _, set := st.ghost["$set:"+g.Name]; set {
+			continue
+		}
+		updated := false
+		for _, a := range fc.At {
+			if a.Kind == "ghost" && a.Ghost == g.Name {
+				updated = true
+			}
+		}
+		if !updated {
+			continue
+		}
+		if identIn(c.Text, g.Name) {
+			return true
+		}
+	}
+	return false
+}
+
+func identIn(text, name string) bool {
+	for i := 0; i+len(name) <= len(text); i++ {
+		if text[i:i+len(name)] != name {
+			continue
+		}
+		before := i == 0 || !isIdentByte(text[i-1]) && text[i-1] != '.'
+		after := i+len(name) == len(text) || !isIdentByte(text[i+len(name)])
+		if before && after {
+			return true
+		}
+	}
+	return false
+}
+
+func isIdentByte(b byte) bool {
+	return b == '_' || b >= '0' && b <= '9' || b >= 'a' && b <= 'z' || b >= 'A' && b <= 'Z'
+}
